@@ -282,3 +282,20 @@ Lemma c02_durable_bound_l sh tr s bs :
 Proof.
   intros H Hp Hb. pose proof (run_inv_block _ _ _ H Hp) as Hi. rewrite Hb in Hi. apply Hi.
 Qed.
+
+(* the diagnosis agrees with the monitor *)
+Lemma diag_agrees sh tr : forall m i, diag_run sh m tr i = [0] <-> mon_run sh m tr <> None.
+Proof.
+  induction tr as [|e tr IH]; intros m i; simpl.
+  - split; [discriminate|reflexivity].
+  - unfold mstep. destruct (conc_ok sh (m_fly (m_event m e))).
+    + apply IH.
+    + split; [|intro H; contradiction].
+      destruct (first_other_block _) as [[b b']|]; [discriminate|].
+      destruct (first_over sh _) as [[b n]|]; discriminate.
+Qed.
+
+Lemma mon_conc_diag_agrees c : mon_conc c = true <-> mon_conc_diag c = [0].
+Proof.
+  unfold mon_conc, mon_conc_diag. rewrite diag_agrees. destruct (mon_run (fst c) m0 (snd c)); split; congruence.
+Qed.
